@@ -3,6 +3,7 @@ package props
 import (
 	"crypto/rsa"
 	"fmt"
+	"strings"
 	"testing"
 	"time"
 
@@ -69,7 +70,7 @@ func genC07(t *rapid.T) C07Case {
 	c.SPCert = rapid.SampledFrom([]string{"valid", "valid", "valid", "valid", "empty", "garbage", "nocert-tls"}).Draw(t, "spCert")
 	c.StoreKind = rapid.SampledFrom([]string{"tls", "custom"}).Draw(t, "storeKind")
 	c.Plain = rapid.SampledFrom([]string{"signed", "signed", "unsigned", "forged", "attacker-signed", "non-assertion", "nested-wrapper"}).Draw(t, "plain")
-	c.Place = rapid.SampledFrom([]string{"direct", "direct", "direct", "nested", "in-forged", "direct+nested-after", "nested-before+direct"}).Draw(t, "place")
+	c.Place = rapid.SampledFrom([]string{"direct", "direct", "direct", "nested", "in-forged", "direct+nested-after", "nested-before+direct", "direct+direct-after", "direct-before+direct"}).Draw(t, "place")
 	c.RespSig = rapid.SampledFrom([]string{"none", "none", "trusted", "attacker"}).Draw(t, "respSig")
 	c.Recip = rapid.SampledFrom([]string{"absent", "absent", "sp", "other", "undecodable", "sp-otherwindow"}).Draw(t, "recip")
 	c.IdPWide = rapid.Bool().Draw(t, "idpWide")
@@ -170,7 +171,7 @@ func (c *C07Case) build() error {
 		ext := etree.NewElement("samlp:Extensions")
 		ext.AddChild(ea)
 		root.AddChild(ext)
-	case "direct+nested-after", "nested-before+direct":
+	case "direct+nested-after", "nested-before+direct", "direct+direct-after", "direct-before+direct":
 		// a genuine trusted-signed assertion, encrypted, as direct child — plus this case's encrypted element
 		// one level down (in Extensions), after or before it
 		g2 := gridGenuine(c.SP, 1, "none")
@@ -187,17 +188,27 @@ func (c *C07Case) build() error {
 		det2, _ := h.DetachedCopy(a2)
 		e2 := c.Enc
 		e2.Recipient, e2.RecipRaw = nil, ""
+		if strings.Contains(c.Place, "direct-") {
+			// both are direct children; the genuine one carries its key in-line and shares the
+			// content-encryption key and algorithm with this case's element (nothing forbids an IdP,
+			// or anyone else, to re-use a session key): state kept from one element must not serve the next
+			e2.Detached = false
+		}
 		ea2, err := e2.EncryptElement(h.Serialize(det2, h.Layout{}), g.NS)
 		if err != nil {
 			return err
 		}
-		ext := etree.NewElement("samlp:Extensions")
-		ext.AddChild(ea)
-		if c.Place == "direct+nested-after" {
+		var other etree.Token = ea
+		if !strings.Contains(c.Place, "direct-") {
+			ext := etree.NewElement("samlp:Extensions")
+			ext.AddChild(ea)
+			other = ext
+		}
+		if c.Place == "direct+nested-after" || c.Place == "direct+direct-after" {
 			root.AddChild(ea2)
-			root.AddChild(ext)
+			root.AddChild(other)
 		} else {
-			root.AddChild(ext)
+			root.AddChild(other)
 			root.AddChild(ea2)
 		}
 	case "in-forged":
@@ -256,7 +267,10 @@ func judgeC07(c C07Case, newSP func() *saml2.SAMLServiceProvider) h.Outcome {
 	}
 	// ---- soundness on success: only the genuine assertion, covered by a trusted signature, may come back
 	if accepted {
-		plainTrusted := (c.Plain == "signed") && idpOK
+		// with a genuine signed companion as a second direct child, a plaintext that is not an assertion at
+		// all is simply not honoured; the companion alone justifies acceptance
+		companion := strings.Contains(c.Place, "direct-") && (c.Plain == "non-assertion" || c.Plain == "nested-wrapper")
+		plainTrusted := (c.Plain == "signed" || companion) && idpOK
 		respTrusted := c.RespSig == "trusted" && idpOK
 		if !plainTrusted && !respTrusted {
 			o.Violation = h.V("untrusted-plaintext-accepted/"+c.Plain+"/"+c.RespSig, "accepted although neither the plaintext (%s) nor the Response (%s) carries a trusted valid signature", c.Plain, c.RespSig)
@@ -291,13 +305,14 @@ func judgeC07(c C07Case, newSP func() *saml2.SAMLServiceProvider) h.Outcome {
 			o.Violation = h.V("must-reject/"+sig, "accepted although %s", why)
 		}
 	}
-	if c.RespSig != "trusted" && c.Place != "direct" {
+	direct := c.Place == "direct" || c.Place == "direct+direct-after" || c.Place == "direct-before+direct"
+	if c.RespSig != "trusted" && !direct {
 		reject("not-direct-child", "the encrypted assertion is "+c.Place+" rather than a direct child of an unsigned Response")
 	}
 	if c.RespSig == "attacker" {
 		reject("attacker-signed-response", "the Response signature is by an untrusted key")
 	}
-	if c.Place == "direct" || c.RespSig == "trusted" {
+	if direct || c.RespSig == "trusted" {
 		// decryption is attempted for every EncryptedAssertion anywhere in the verified/unsigned tree
 		switch c.Recip {
 		case "other", "sp-otherwindow":
@@ -318,7 +333,7 @@ func judgeC07(c C07Case, newSP func() *saml2.SAMLServiceProvider) h.Outcome {
 			}
 		}
 	}
-	if c.RespSig == "none" && c.Plain != "signed" {
+	if c.RespSig == "none" && c.Plain != "signed" && !(strings.Contains(c.Place, "direct-") && (c.Plain == "non-assertion" || c.Plain == "nested-wrapper")) {
 		reject("untrusted-plaintext", "an unsigned Response carries an encrypted assertion whose plaintext ("+c.Plain+") has no IdP signature")
 	}
 	if o.Violation != nil {
@@ -379,6 +394,27 @@ func TestC07_Grid(t *testing.T) {
 							cases = append(cases, c)
 						}
 					}
+				}
+			}
+		}
+	}
+	// every placement x recipient naming x key placement, in the valid window
+	for _, place := range []string{"direct", "nested", "in-forged", "direct+nested-after", "nested-before+direct", "direct+direct-after", "direct-before+direct"} {
+		for _, recip := range []string{"absent", "sp", "other", "undecodable", "sp-otherwindow"} {
+			for _, detached := range []bool{false, true} {
+				for _, plain := range []string{"signed", "unsigned", "forged"} {
+					i++
+					alg := h.DataAlgs[i%len(h.DataAlgs)]
+					iv := 16
+					if h.IsGCM(alg) {
+						iv = 12
+					}
+					c := C07Case{SP: h.BaseSP(), Window: "wide", ClockPos: "inside", SPCert: "valid", StoreKind: []string{"tls", "custom"}[i%2], Plain: plain, Place: place, RespSig: "none", Recip: recip,
+						Enc: h.EncSpec{DataAlg: alg, Transport: h.Transports[i%3], Digest: "-", Detached: detached, To: h.CertRef{Key: "E1", Window: "wide"}, Key: make([]byte, h.KeyLen(alg)), IV: make([]byte, iv)}}
+					if err := c.build(); err != nil {
+						t.Fatalf("harness: %v", err)
+					}
+					cases = append(cases, c)
 				}
 			}
 		}
